@@ -350,6 +350,62 @@ func c03Drive(args []string) int {
 			record("input-mutation", s.Name, desc, s.Schema, mi, runRobust(s.Schema, mi))
 		}
 	}
+	// (3) directed near-valid schemas that the grammar-blind mutations reach only rarely
+	directed := []string{
+		`{"parser_settings": {"version": "omni.2.1", "file_format_type": "xml"}, "transform_declarations": {"FINAL_OUTPUT": {"object": {"a": {"template": "T"}}}, "T": {"xpath_dynamic": {"custom_func": {"name": "concat", "args": [null]}}}}}`,
+		`{"parser_settings": {"version": "omni.2.1", "file_format_type": "xml"}, "transform_declarations": {"FINAL_OUTPUT": {"object": {"a": {"template": "T"}}}, "T": {"xpath_dynamic": {"object": {"x": null}}}}}`,
+		`{"parser_settings": {"version": "omni.2.1", "file_format_type": "json"}, "transform_declarations": {"FINAL_OUTPUT": {"template": "A"}, "A": {"template": "B"}, "B": {"template": "A"}}}`,
+		`{"parser_settings": {"version": "omni.2.1", "file_format_type": "json"}, "transform_declarations": {"FINAL_OUTPUT": {"custom_func": {"name": "copy", "args": [{"const": "x"}]}}}}`,
+		`{"parser_settings": {"version": "omni.2.1", "file_format_type": "json"}, "transform_declarations": {"FINAL_OUTPUT": {"custom_func": {"name": "javascript"}}}}`,
+		`{"parser_settings": {"version": "omni.2.1", "file_format_type": "csv2"}, "file_declaration": {"delimiter": ",", "records": []}, "transform_declarations": {"FINAL_OUTPUT": {"object": {}}}}`,
+		`{"parser_settings": {"version": "omni.2.1", "file_format_type": "edi"}, "file_declaration": {"segment_delimiter": "", "element_delimiter": "", "segment_declarations": [{"name": "A", "is_target": true}]}, "transform_declarations": {"FINAL_OUTPUT": {"object": {}}}}`,
+		`{"parser_settings": {"version": "omni.2.1", "file_format_type": "fixedlength2"}, "file_declaration": {"envelopes": [{"name": "g", "type": "envelope_group", "is_target": true, "child_envelopes": [{"name": "r", "rows": 0}]}]}, "transform_declarations": {"FINAL_OUTPUT": {"object": {}}}}`,
+	}
+	for di, ds := range directed {
+		for _, in := range []string{"", "a,b\n", "<a><b>1</b></a>", `{"a": [1, 2]}`, "A*1~A*2~"} {
+			record("directed-schema", fmt.Sprintf("directed/%d", di), "directed", []byte(ds), []byte(in), runRobust([]byte(ds), []byte(in)))
+		}
+	}
+	// (4) rich documents through the tree-to-JSON conversion (copy, javascript_with_context, checksum): repeated
+	// sibling names with and without namespace prefixes, mixed content, attributes; JSON with empty keys and nesting
+	convXML := `{"parser_settings": {"version": "omni.2.1", "file_format_type": "xml"}, "transform_declarations": {"FINAL_OUTPUT": {"xpath": "/root/*", "object": {
+	  "c": {"custom_func": {"name": "copy"}}, "j": {"custom_func": {"name": "javascript_with_context", "args": [{"const": "JSON.stringify(JSON.parse(_node))"}]}},
+	  "kids": {"array": [{"xpath": "*", "custom_func": {"name": "copy"}}]}}}}}`
+	convJSON := `{"parser_settings": {"version": "omni.2.1", "file_format_type": "json"}, "transform_declarations": {"FINAL_OUTPUT": {"xpath": "/*", "object": {
+	  "c": {"custom_func": {"name": "copy"}}, "j": {"custom_func": {"name": "javascript_with_context", "args": [{"const": "JSON.stringify(JSON.parse(_node))"}]}}}}}}`
+	xnames := []string{"a", "b", "p:a", "q:a", "p:b", "item", "n:item"}
+	var genX func(depth int) string
+	genX = func(depth int) string {
+		nm := xnames[r.Intn(len(xnames))]
+		attrs := ""
+		if r.Intn(3) == 0 {
+			attrs = fmt.Sprintf(` k="%d" p:k="x"`, r.Intn(3))
+		}
+		var kids strings.Builder
+		for k := r.Intn(6); k > 0 && depth < 3; k-- {
+			if r.Intn(4) == 0 {
+				kids.WriteString([]string{"t", " ", "é", "1"}[r.Intn(4)])
+			} else if r.Intn(3) == 0 {
+				// a run of equally named siblings, possibly under different prefixes
+				base := []string{"a", "item", "b"}[r.Intn(3)]
+				for m := 2 + r.Intn(3); m > 0; m-- {
+					pre := []string{"", "p:", "q:", "n:"}[r.Intn(4)]
+					kids.WriteString("<" + pre + base + ">" + fmt.Sprint(m) + "</" + pre + base + ">")
+				}
+			} else {
+				kids.WriteString(genX(depth + 1))
+			}
+		}
+		return "<" + nm + attrs + ">" + kids.String() + "</" + nm + ">"
+	}
+	for k := 0; k < nim*4; k++ {
+		doc := `<root xmlns:p="urn:p" xmlns:q="urn:q" xmlns:n="urn:n">` + genX(0) + genX(0) + `</root>`
+		record("rich-document", "conv/xml", "random xml", []byte(convXML), []byte(doc), runRobust([]byte(convXML), []byte(doc)))
+		var toks []dtok
+		genJSONToks(r, 3, &toks)
+		jd := "[" + renderJSONTokens(toks, 1, r) + "," + renderJSONTokens(toks, 0, r) + "]"
+		record("rich-document", "conv/json", "random json", []byte(convJSON), []byte(jd), runRobust([]byte(convJSON), []byte(jd)))
+	}
 	sum.sample(M{"mutation_kinds": []string{"delete key", "wrong type / odd value", "number/string extremes", "subtree copy", "custom_func arity/name", "occurrence bounds"}})
 	mustWriteNDJSON(args[0], events)
 	sum.done()
